@@ -78,7 +78,7 @@ def adds(ctx, shard, nshards):
     sub = Sub("c11.adds")
     V = Viol(sub, "C11")
     rnd = random.Random(ctx.sub_seed("c11d", shard))
-    inst = _instants(ctx, shard, nshards, 600 if not ctx.thorough else 20000, "c11i")
+    inst = _instants(ctx, shard, nshards, 2500 if not ctx.thorough else 20000, "c11i")
     durs = _durs(rnd)
     for rep in DREP:
         lines = [dt_text(rep, n, s) for n, s in inst]
@@ -115,7 +115,7 @@ def diffs(ctx, shard, nshards):
     sub = Sub("c11.diffs")
     V = Viol(sub, "C11")
     rnd = random.Random(ctx.sub_seed("c11f", shard))
-    inst = _instants(ctx, shard, nshards, 120 if not ctx.thorough else 4000, "c11fi")
+    inst = _instants(ctx, shard, nshards, 800 if not ctx.thorough else 6000, "c11fi")
     for n, s in inst:
         A = n * 86400 + s
         Bs = []
@@ -155,7 +155,7 @@ def epoch(ctx, shard, nshards):
     a, b = slice_range(R.NMIN, R.NMAX, shard, nshards)
     inst = []
     B = [x for x in boundary() if a <= x < b]
-    for _ in range(4000 if not ctx.thorough else 150000):
+    for _ in range(40000 if not ctx.thorough else 400000):
         n = rnd.choice(B) if rnd.random() < 0.5 else rnd.randrange(a, b)
         s = rnd.choice(SECS) if rnd.random() < 0.5 else rnd.randrange(86400)
         inst.append((n, s))
